@@ -312,6 +312,11 @@ def _run(case, ctx, lifecycle=False):
         if case.get("shuffled_index"):
             idx = list(range(len(ref)))
             idx = idx[len(idx) // 3:] + idx[: len(idx) // 3][::-1]     # a permuted integer index (as after df.sample(frac=1))
+            if len(idx) % 2 == 1:
+                # repeated row labels (as after pd.concat([a, b]) without ignore_index): the folds are positional (wave 10, V05-w10m1)
+                half = len(idx) // 2
+                idx = list(range(half)) + list(range(len(idx) - half))
+                ctx.fault("duplicate_row_labels")
             ref.index = idx
         try:
             clf = make_clf(cfg).fit(ref[["a", "b"]] if not names else ref[["a", "b"]].to_numpy(), ref["y"].to_numpy())
